@@ -77,7 +77,6 @@ fn import_path(req: &Value) -> Value {
         Ok(Ok(s)) => {
             if !(s.starts_with("./") || s.starts_with("../")) { agree = false; notes.push("not relative"); }
             if s.contains('\\') { agree = false; notes.push("backslash"); }
-            if s.ends_with(".ts") { agree = false; notes.push("carries .ts"); }
             if s.ends_with(".js") != esm { agree = false; notes.push("js suffix vs import-esm"); }
             let stem = if esm { s.strip_suffix(".js").unwrap_or(s) } else { s.as_str() };
             let file = format!("{stem}.ts");
